@@ -1,6 +1,7 @@
 import Ruint.Lemmas.Bytes
 import Ruint.Lemmas.RsTactic
 import Ruint.Lemmas.GenBytes
+import Ruint.Gen.WordsUtils
 
 /-!
 # C08 — byte encodings are positional, round-trip, and range-check without panicking
@@ -293,5 +294,17 @@ theorem gen_try_from_slice_never_panics (bits : ℕ) (hN : nlimbs bits < 2 ^ 60)
   constructor
   · intro e; rw [e] at h; exact h.1 rfl
   · intro e; rw [e] at h; exact h.2 rfl
+
+/-! ## The trimming helpers of `src/utils.rs` as regenerated from the source (G)
+
+`as_le_bytes_trimmed` / `to_*_bytes_trimmed_vec` cut trailing zero bytes with `utils::trim_end_slice` / `trim_end_vec`, which are
+`&slice[..last_idx(slice, value)]` with `last_idx = rposition(|b| b != value).map_or(0, |i| i + 1)`; `rem_up` is the byte count of
+the top limb used by the codecs. The generated definitions have exactly that shape. -/
+
+theorem gen_utils_shapes (l : List ℕ) (v a b : ℕ) :
+    Ruint.Gen.utils_trim_end_slice l v = l.take (Ruint.Gen.utils_last_idx l v)
+    ∧ Ruint.Gen.utils_last_idx l v = (match Rs.rposition (fun x => x != v) l with | some i => Rs.wadd 64 i 1 | none => 0)
+    ∧ Ruint.Gen.utils_rem_up a b = (if decide (a % b > 0) then a % b else b) :=
+  ⟨rfl, rfl, rfl⟩
 
 end Ruint.C08
